@@ -35,7 +35,7 @@ def build():
     u.struct(S, ['struct Storage'])
     MIMPL = 'impl<T: Component> MaskedStorage<T>'
     u.fn(S, [MIMPL, 'fn new'], ret='r', props='C04',
-         requires=[E('empty', 'forall|i: Index| !inner.has(i)')],
+         requires=[E('empty', 'forall|i: Index| !inner.has(i)'), E('inner_wf', 'inner.us_wf()')],
          ensures=[E('wf', 'r.wf()'), E('empty', 'r@ == Map::<Index, T>::empty()'), E('inner', 'r.inner == inner')])
     u.fn(S, [MIMPL, 'fn remove'], ret='r', props='C04 C12',
          requires=[E('wf', 'old(self).wf()')],
